@@ -5,6 +5,9 @@ import M3d.Lemmas.SmoothTop2
 import M3d.Lemmas.SolidTree
 import M3d.Lemmas.Stack
 import M3d.Lemmas.RectSetHist
+import M3d.Lemmas.RectSetProg
+import M3d.Lemmas.SmoothSolid
+import M3d.Lemmas.SolidExpr
 /-!
 # C04 — solid combinators implement exact, order-independent set algebra
 
@@ -142,6 +145,30 @@ theorem mux_allcontains_eq (n : Nat) (g : List (Nat × Solid K) → List (Nat ×
   · have hs : solids[i]? = none := List.getElem?_eq_none (by omega)
     simp [hi, hs]
 
+/-- **Nests of combinators.**  Take any expression built from leaf solids with `JoinedSolid`,
+`JoinedSolid.Optimize()`, `NewSolidMux` (used as a solid), `IntersectedSolid` and `SubtractedSolid`, nested to
+any depth, with non-empty operand lists (duplicates allowed), where the leaves respect their bounds and
+`GroupBounders` reorders — in whatever way — at each `Optimize` / `SolidMux` node (`Expr.WF`).  Then building the
+solid bottom-up, each combinator reporting the bounds the Go code reports (`JoinedSolid.Min/Max`,
+`IntersectedSolid.Min/Max`, `Positive`'s bounds, the cached bounds, the mux's `bbox`) and the accelerated
+forms pruning by those bounds, terminates, and the result **contains exactly the points of the pointwise
+boolean formula** (`Expr.eval`: union for the three join forms, intersection, difference) and respects the
+bounds it reports — so it can itself be an operand of a further accelerated form. -/
+theorem nested_combinators_eq_formula (n : Nat) (e : Expr K) (h : e.WF n) :
+    ∃ s, e.toSolid n = some s ∧ Bounded n s ∧ ∀ p, s.f p = e.eval p :=
+  Expr.toSolid_spec n e h
+
+/-- Non-vacuity: `Optimize{ a ∩ b, mux{a, c} − b }` over three intervals on the line (`n = 1`). -/
+example :
+    let a : Solid Int := ⟨⟨fun _ => 0, fun _ => 4⟩, fun p => decide (0 ≤ p 0) && decide (p 0 ≤ 4)⟩
+    let b : Solid Int := ⟨⟨fun _ => 2, fun _ => 6⟩, fun p => decide (2 ≤ p 0) && decide (p 0 ≤ 6)⟩
+    let c : Solid Int := ⟨⟨fun _ => 8, fun _ => 9⟩, fun p => decide (8 ≤ p 0) && decide (p 0 ≤ 9)⟩
+    let e : Expr Int := .opt id (.cons (.inter (.cons (.leaf a) (.one (.leaf b))))
+      (.one (.sub (.mux id (.cons (.leaf a) (.one (.leaf c)))) (.leaf b))))
+    ((e.toSolid 1).map fun s => [1, 3, 5, 8].map fun x => s.f (fun _ => x)) = some [true, true, false, true] ∧
+    ([1, 3, 5, 8].map fun x => e.eval (fun _ => x)) = [true, true, false, true] := by
+  decide +kernel
+
 /-- Non-vacuity: two overlapping unit boxes in the plane are bounded operands. -/
 example : ∃ (a b : Solid Int), Bounded 2 a ∧ Bounded 2 b ∧ a.f (fun _ => 1) = true := by
   refine ⟨⟨⟨fun _ => 0, fun _ => 1⟩, fun p => (⟨fun _ => 0, fun _ => 1⟩ : Box Int).contains 2 p⟩,
@@ -264,6 +291,54 @@ example :
       (.add (.add .new ⟨⟨3, 0, 0⟩, ⟨3, 1, 1⟩⟩) ⟨⟨2, 0, 0⟩, ⟨3, 1, 1⟩⟩)
     ∃ t, build (h.eval.rects.length + 1) h.eval = some t ∧ t.wellSplitB = true ∧
       t.contains ⟨1, 1, 1⟩ = true ∧ t.contains ⟨3, 1, 1⟩ = true ∧ t.contains ⟨5, 0, 0⟩ = false := by
+  decide +kernel
+
+
+/-! ### The life cycle of a set object and of its solids -/
+
+/-- **Every `Solid()` call of every program answers for the receiver's current set.**  Take any
+program over `RectSet` objects `v_0, v_1, …` (each starting as `NewRectSet()`): any finite sequence of
+`v_i.Add`, `v_i.Remove`, `v_i.AddRectSet(v_j)`, `v_i.RemoveRectSet(v_j)` (also `i = j`, also with `v_j`
+used and changed again later), `v_i = NewRectSet()` and `v_i.Solid()`.  Then the k-th `Solid()` call
+terminates and returns a well-split tree whose `Contains` is exactly "some box stored in the receiver
+**at the time of that call** contains the point" — no matter how many `Solid()` calls (on this or
+other objects) came before it and what was added since — and, away from the planes through box faces,
+exactly the point set "boxes added minus boxes removed" of the receiver's history (`solidCalls`). -/
+theorem rectset_program_solid_eq_union (cs : List (Cmd K)) :
+    List.Forall₂ (fun (o : Option (RectSet.Tree K)) (h : Hist K) =>
+        ∃ t, o = some t ∧ t.WellSplit ∧
+          (∀ p, t.contains p = h.eval.rects.any (fun r => r.contains p)) ∧
+          (∀ p, h.Generic p → t.contains p = h.sem p))
+      (runProg (fun _ => RS.empty) cs) (solidCalls (fun _ => Hist.new) cs) := by
+  unfold runProg
+  rw [progStates_eq cs (fun _ => RS.empty) (fun _ => Hist.new) (fun _ => rfl), List.map_map]
+  generalize solidCalls (fun _ => Hist.new) cs = hs
+  induction hs with
+  | nil => exact List.Forall₂.nil
+  | cons h hs ih =>
+    refine List.Forall₂.cons ?_ ih
+    obtain ⟨t, ht, hw, hu, hg⟩ := rectset_history_solid_eq_union h
+    exact ⟨t, ht, hw, hu, hg⟩
+
+/-- … and the receiver's value at each call is the value of that history: **calling `Solid()` changes
+no object** — removing the `Solid()` calls from a program leaves every object as it was, and a
+`Solid()` call after a prefix `cs₁` sees exactly the objects `cs₁` produces. -/
+theorem rectset_solid_calls_have_no_effect (cs₁ cs₂ : List (Cmd K)) (st : Nat → RS K) :
+    progFinal st (cs₁.filter fun c => !c.isSolid) = progFinal st cs₁ ∧
+    runProg st (cs₁ ++ cs₂) = runProg st cs₁ ++ runProg (progFinal st (cs₁.filter fun c => !c.isSolid)) cs₂ := by
+  refine ⟨progFinal_filter cs₁ st, ?_⟩
+  unfold runProg
+  rw [progFinal_filter, progStates_append, List.map_append]
+
+/-- Non-vacuity (the grid-aligned gap): `v_0` holds `[0,2]³` and `[4,6]³`, `Solid()` is called, then
+`[2,4]³` is added — all six of its faces lie on planes already in use, so no split changes — and
+`Solid()` is called again: the second solid contains the centre of the new box, the first (a value
+built from the earlier set) does not. -/
+example :
+    let cs : List (Cmd Int) := [.add 0 ⟨⟨0, 0, 0⟩, ⟨2, 2, 2⟩⟩, .add 0 ⟨⟨4, 4, 4⟩, ⟨6, 6, 6⟩⟩, .solid 0,
+      .add 0 ⟨⟨2, 2, 2⟩, ⟨4, 4, 4⟩⟩, .solid 0]
+    ((progStates (fun _ => RS.empty) cs).map (·.splits)).Pairwise (· = ·) ∧
+    (runProg (fun _ => RS.empty) cs).map (fun o => o.map (·.contains ⟨3, 3, 3⟩)) = [some false, some true] := by
   decide +kernel
 
 end RectSetSolid
@@ -601,6 +676,143 @@ theorem smoothV2_perm (n : Nat) (sqrt abs : K → K) (radius : K) {es₁ es₂ :
           · right; exact sub _ h1
   unfold smoothJoinV2
   simp only [hloop]
+
+/-! ### The smooth joins as solids: bounds wrapper + closure, asked at many points -/
+
+/-- **`SmoothJoin(radius, sdfs...)` as a solid computes its specification at every point**: inside iff the
+point is within the joint bounds of the operands grown by `radius` (the `CheckedFuncSolid` test) and some
+operand is positive there or the rounding test passes on the two largest distances there.  This is the
+value the correspondence compares `sjb` lines against. -/
+theorem smoothSolid_eq_spec (n : Nat) (r : K) (s0 : Sdf K) (rest : List (Sdf K)) (p : Pt K) :
+    (smoothSolid n r s0 rest).f p
+      = (((boxesJoin s0.box (rest.map (·.box))).expand r).contains n p
+          && smoothSpec r ((s0 :: rest).map (·.d p))) := by
+  simp only [smoothSolid, smooth_eq_spec]
+
+/-- The solid `SmoothJoin` returns — bounds test included — answers the same at every point for
+**every ordering of its operands**. -/
+theorem smoothSolid_perm (n : Nat) (r : K) {s0 t0 : Sdf K} {rest rest' : List (Sdf K)}
+    (h : (s0 :: rest).Perm (t0 :: rest')) (p : Pt K) :
+    (smoothSolid n r s0 rest).f p = (smoothSolid n r t0 rest').f p := by
+  simp only [smoothSolid]
+  have hb : (s0.box :: rest.map (·.box)).Perm (t0.box :: rest'.map (·.box)) := by
+    simpa using h.map (·.box)
+  rw [expand_boxesJoin_perm n r hb p, smooth_perm r (h.map (·.d p))]
+
+/-- **A smooth join contains the plain union** of its operands (operands positive only inside their own
+bounds, `radius ≥ 0`): the grown joint bounds never cut an operand off. -/
+theorem smoothSolid_contains_union (n : Nat) (r : K) (hr : 0 ≤ r) (s0 : Sdf K) (rest : List (Sdf K))
+    (hb : ∀ s ∈ s0 :: rest, SdfBounded n s) (p : Pt K)
+    (h : (s0 :: rest).any (fun s => decide (0 < s.d p)) = true) :
+    (smoothSolid n r s0 rest).f p = true := by
+  obtain ⟨s, hs, hpos⟩ := List.any_eq_true.mp h
+  have hpos' : 0 < s.d p := by simpa using hpos
+  have hbox := expand_boxesJoin_contains_of_mem n hr s0.box (rest.map (·.box))
+    (b := s.box) (by simpa using List.mem_map_of_mem (f := (·.box)) hs) (hb s hs p hpos')
+  simp only [smoothSolid, hbox, Bool.true_and]
+  apply smooth_contains_union
+  rw [List.any_map]
+  exact h
+
+/-- **Away from where operands meet** — fewer than two operands within `radius` of the point — the smooth
+join answers exactly like the plain union, inside, around and outside its bounds. -/
+theorem smoothSolid_far (n : Nat) (r : K) (hr : 0 ≤ r) (s0 : Sdf K) (rest : List (Sdf K))
+    (hb : ∀ s ∈ s0 :: rest, SdfBounded n s) (p : Pt K)
+    (h : ((s0 :: rest).map (·.d p)).countP (fun d => decide (-r < d)) < 2) :
+    (smoothSolid n r s0 rest).f p = (s0 :: rest).any (fun s => decide (0 < s.d p)) := by
+  cases hany : (s0 :: rest).any (fun s => decide (0 < s.d p))
+  · have : smoothJoin r ((s0 :: rest).map (·.d p)) = false := by
+      rw [smooth_far r _ h, List.any_map]; exact hany
+    simp only [smoothSolid, this, Bool.and_false]
+  · exact smoothSolid_contains_union n r hr s0 rest hb p hany
+
+/-- With **radius 0** the solid is exactly the plain union of its operands. -/
+theorem smoothSolid_zero_radius (n : Nat) (s0 : Sdf K) (rest : List (Sdf K))
+    (hb : ∀ s ∈ s0 :: rest, SdfBounded n s) (p : Pt K) :
+    (smoothSolid n 0 s0 rest).f p = (s0 :: rest).any (fun s => decide (0 < s.d p)) := by
+  cases hany : (s0 :: rest).any (fun s => decide (0 < s.d p))
+  · have : smoothJoin 0 ((s0 :: rest).map (·.d p)) = false := by
+      rw [smooth_zero_radius, List.any_map]; exact hany
+    simp only [smoothSolid, this, Bool.and_false]
+  · exact smoothSolid_contains_union n 0 (le_refl 0) s0 rest hb p hany
+
+/-- With a **single operand** the solid is that operand (`SDF > 0`), whatever the radius `≥ 0`. -/
+theorem smoothSolid_single (n : Nat) (r : K) (hr : 0 ≤ r) (s0 : Sdf K) (hb : SdfBounded n s0) (p : Pt K) :
+    (smoothSolid n r s0 []).f p = decide (0 < s0.d p) := by
+  have := smoothSolid_far n r hr s0 [] (by simpa using hb) p
+    (by simp only [List.map_cons, List.map_nil, List.countP_cons, List.countP_nil]; split_ifs <;> simp)
+  simpa using this
+
+/-- A smooth join **only adds** points within `radius` of at least two operands (and inside its bounds). -/
+theorem smoothSolid_adds_only_near_two (n : Nat) (r : K) (s0 : Sdf K) (rest : List (Sdf K)) (p : Pt K)
+    (hin : (smoothSolid n r s0 rest).f p = true)
+    (hout : (s0 :: rest).any (fun s => decide (0 < s.d p)) = false) :
+    2 ≤ ((s0 :: rest).map (·.d p)).countP (fun d => decide (-r < d)) := by
+  simp only [smoothSolid, Bool.and_eq_true] at hin
+  exact smooth_adds_only_near_two r _ hin.2 (by rw [List.any_map]; exact hout)
+
+/-- Non-vacuity: two unit squares side by side, radius `1/2`; the operands are positive only inside their
+bounds, the solid contains a point of the union, adds the point `(1, 9/8)` just above the seam (both
+distances `-1/8`) and rejects `(1, 2)` outside the grown bounds although both operands are "near" there
+according to the harness-chosen field. -/
+example :
+    let a : Sdf Rat := ⟨⟨fun _ => 0, fun i => if i = 0 then 1 else 1⟩, fun p => if p 1 ≤ 1 then (if p 0 ≤ 1 then 1/4 else -1/8) else -1/8⟩
+    let b : Sdf Rat := ⟨⟨fun i => if i = 0 then 1 else 0, fun i => if i = 0 then 2 else 1⟩, fun p => if p 1 ≤ 1 then (if 1 ≤ p 0 then 1/4 else -1/8) else -1/8⟩
+    (smoothSolid 2 (1/2) a [b]).f (fun i => if i = 0 then 1/2 else 1/2) = true ∧
+    (smoothSolid 2 (1/2) a [b]).f (fun i => if i = 0 then 1 else 9/8) = true ∧
+    (smoothSolid 2 (1/2) a [b]).f (fun i => if i = 0 then 1 else 2) = false := by
+  decide +kernel
+
+/-- `SmoothJoinV2` as a solid is the same bounds test around the V2 closure; with operands that report
+equal normals whenever they report equal distances at the point it computes its specification there. -/
+theorem smoothSolidV2_eq_spec (n : Nat) (sqrt abs : K → K) (r : K) (s0 : NSdf K) (rest : List (NSdf K))
+    (p : Pt K)
+    (hinj : ∀ a ∈ (s0 :: rest).map (·.dn p), ∀ b ∈ (s0 :: rest).map (·.dn p), a.1 = b.1 → a = b) :
+    (smoothSolidV2 n sqrt abs r s0 rest).f p
+      = (((boxesJoin s0.box (rest.map (·.box))).expand r).contains n p
+          && smoothSpecV2 n sqrt abs r ((s0 :: rest).map (·.dn p))) := by
+  simp only [smoothSolidV2]
+  rw [smoothV2_eq_spec n sqrt abs r _ hinj]
+
+/-- `SmoothJoinV2` as a solid is order independent (bounds included), under the same tie condition. -/
+theorem smoothSolidV2_perm (n : Nat) (sqrt abs : K → K) (r : K) {s0 t0 : NSdf K} {rest rest' : List (NSdf K)}
+    (h : (s0 :: rest).Perm (t0 :: rest')) (p : Pt K)
+    (hinj : ∀ a ∈ (s0 :: rest).map (·.dn p), ∀ b ∈ (s0 :: rest).map (·.dn p), a.1 = b.1 → a = b) :
+    (smoothSolidV2 n sqrt abs r s0 rest).f p = (smoothSolidV2 n sqrt abs r t0 rest').f p := by
+  simp only [smoothSolidV2]
+  have hb : (s0.box :: rest.map (·.box)).Perm (t0.box :: rest'.map (·.box)) := by
+    simpa using h.map (·.box)
+  rw [expand_boxesJoin_perm n r hb p, smoothV2_perm n sqrt abs r (h.map (·.dn p)) hinj]
+
+/-- `SmoothJoinV2` as a solid contains the plain union, and equals it wherever fewer than two operands are
+within `radius` (in particular for a single operand and for radius 0). -/
+theorem smoothSolidV2_far (n : Nat) (sqrt abs : K → K) (r : K) (hr : 0 ≤ r)
+    (hs0 : ∀ x, 0 ≤ sqrt x) (hs1 : ∀ x, x ≤ 1 → sqrt x ≤ 1) (s0 : NSdf K) (rest : List (NSdf K))
+    (hb : ∀ s ∈ s0 :: rest, NSdfBounded n s) (p : Pt K) :
+    ((s0 :: rest).any (fun s => decide (0 < (s.dn p).1)) = true → (smoothSolidV2 n sqrt abs r s0 rest).f p = true) ∧
+    (((s0 :: rest).map (fun s => (s.dn p).1)).countP (fun d => decide (-r < d)) < 2 →
+      (smoothSolidV2 n sqrt abs r s0 rest).f p = (s0 :: rest).any (fun s => decide (0 < (s.dn p).1))) := by
+  have union : (s0 :: rest).any (fun s => decide (0 < (s.dn p).1)) = true →
+      (smoothSolidV2 n sqrt abs r s0 rest).f p = true := by
+    intro h
+    obtain ⟨s, hs, hpos⟩ := List.any_eq_true.mp h
+    have hpos' : 0 < (s.dn p).1 := by simpa using hpos
+    have hbox := expand_boxesJoin_contains_of_mem n hr s0.box (rest.map (·.box))
+      (b := s.box) (by simpa using List.mem_map_of_mem (f := (·.box)) hs) (hb s hs p hpos')
+    simp only [smoothSolidV2, hbox, Bool.true_and]
+    obtain ⟨c, hc⟩ := smoothV2_reduces n sqrt abs r ((s0 :: rest).map (·.dn p))
+    rw [hc]
+    apply smooth_contains_union
+    rw [List.map_map, List.any_map]
+    exact h
+  refine ⟨union, fun hfar => ?_⟩
+  cases hany : (s0 :: rest).any (fun s => decide (0 < (s.dn p).1))
+  · have : smoothJoinV2 n sqrt abs r ((s0 :: rest).map (·.dn p)) = false := by
+      rw [smoothV2_far n sqrt abs r _ hr hs0 hs1 (by simpa [List.map_map, Function.comp_def] using hfar),
+        List.any_map]
+      exact hany
+    simp only [smoothSolidV2, this, Bool.and_false]
+  · exact union hany
 
 /-- Non-vacuity of the `sqrt` hypotheses: the exact square root used by the driver on {0, 1}
 (`fun x => if x = 1 then 1 else 0`) satisfies them. -/
